@@ -4,10 +4,10 @@ SPEC = {
     "translators": ["gen_scanstate"],
     "bins": ["c14"],
     "model_targets": ["Pat/BlocksCheck.vo"],
-    "proof_targets": ["Pat/BlocksProofs.vo", "Scanner/StateProofs.vo"],
+    "proof_targets": ["Pat/BlocksProofs.vo", "Pat/BlocksPipelineProofs.vo", "Scanner/StateProofs.vo"],
     "assumptions": [
         "the pattern search on a block inside blocks::Scanner is the same function as the search yara_x::Scanner runs on that block alone (filesize pruning never applies to pattern-only rules; the header pre-filter only to the block at base 0, where both agree) - this is what K compares on every generated case",
-        "MatchList::add keeps one match per start offset; which of two matches with the same start survives is left open (the theorems hold for every policy; K accepts longest / newest / oldest)",
+        "MatchList::add keeps one match per start offset; for blocks_union which of two matches with the same start survives is left open (the theorem holds for every policy); the exact, position-dependent behaviour with bases is modelled by add_b (same-start arms generated from the source) and compared with the real MatchList through the hook",
         "unconfirmed chain matches are cleared between blocks (generated: blocks::Scanner::scan body), so a chain never completes across blocks; modelled by scan_one being applied to each block separately",
         "snippet retention (Match::data, context window) is not modelled in Coq; its specification is evaluated on the implementation's outputs (S)",
     ],
@@ -15,12 +15,17 @@ SPEC = {
 }
 
 RULE = ("virtual files of 120-620 bytes assembled from instances and near-misses of 2-5 patterns drawn from 13 kinds (text, nocase, wide, fullword, xor, "
-        "hex with jumps, chained hex with a 210-260 gap, greedy regexps, word boundaries, wildcards, base64), at offset 0 and at the last byte too; "
+        "hex with jumps, chained hex and regexp patterns (jump range > 200: [0-300], .{0,300}), greedy regexps, word boundaries, wildcards, base64), at offset 0 and at the last byte too; "
         "partitions with 0-5 random cuts (through matches), dropped segments (gaps), segments extended by up to 11 bytes, arbitrary overlapping blocks, a shorter/longer block at the base "
         "of another, repeated blocks, empty blocks (also at a used base), no block at all, shuffled delivery; context size 0/3/16; block scanner fresh / converted from a used Scanner / reused after a "
         "finished sequence; rules using `$p`, `$p at K`, `$p in (a..b)`, `#p >= n`; in two thirds of the cases 1-2 rules `$a at N or $b [or true]` whose literal is anchored "
         "(N in {0,1,2,4,7} or random), with copies of the literal placed after N at which blocks are made to start, and blocks with base = N, N+1, N-1: "
-        "the anchored pattern must be reported exactly when the literal is at N inside a delivered block, nowhere else. Reference: yara_x::Scanner::scan on every block alone. "
+        "the anchored pattern must be reported exactly when the literal is at N inside a delivered block, nowhere else; one third of the cases are "
+        "directed straddle scenarios: an occurrence of a greedy / variable-length pattern (/abc+/, /x[0-9]{2,5}/, /foo(barbaz|bar)/, /w[0-9]*/, /Q.*Z/, "
+        "hex with a jump) crosses the END of one block (shorter match at the same start) and lies inside another overlapping block with a different base, "
+        "with unrelated occurrences at higher and lower offsets in further blocks, delivered in any order; range(), data() and data_with_context() of every "
+        "reported match are read and compared with the file's bytes. Plus n/4 sequences of MatchList::add calls with bases through the hook, compared call by call "
+        "with the model (add_b). Reference: yara_x::Scanner::scan on every block alone. "
         "Plus 30 whole-file cases (filesize, uintN, hash, module fields, math x three histories). Distinct by (patterns, blocks, file prefix).")
 
 
@@ -46,13 +51,18 @@ def run_k(run, tier, seed, drv):
 MANIFEST = {
     "level_text": ("Machine-checked proof (Coq) that, for every per-block search function, every same-start policy and every list of (base, block) "
                    "pairs (any order, gaps, overlaps, empty and repeated blocks), the block scanner's matches are per-block matches shifted by the "
-                   "block's base, with exactly the shifted start offsets (none lost, none spanning two blocks); the model is compared with "
+                   "block's base, with exactly the shifted start offsets (none lost, none spanning two blocks); for the literal family the per-block "
+                   "search is the concrete pipeline model (offset-translation theorem: the pipeline on a block at base b = the pipeline on the block "
+                   "alone, shifted by b); MatchList::add with block bases and the snippet collection are modelled arm by arm (same-start arms and the "
+                   "anchor rule generated from the source): every listed match is, as a whole, a match of one delivered block and a stored snippet "
+                   "covers it; the model is compared with "
                    "blocks::Scanner on generated partitions, and the property (including Match::data bytes, context windows clipped to the block, "
                    "absolute offsets for at/in/#) is evaluated on the implementation's outputs against yara_x::Scanner run on each block alone. "
                    "The whole-file clause is derived from the source-generated state model of C04: proved for every history (filesize, module "
                    "fields, hash/math caches are as in a fresh block scanner when a sequence starts)."),
-    "level_note": ("Trusted: Coq kernel, harness, translator (whole-file part). The per-block search itself (atoms, verification, chains) is not "
-                   "modelled here: it is the abstract scan_one, tied to the implementation differentially. Seven defects found by this check were "
+    "level_note": ("Trusted: Coq kernel, harness, translator (whole-file part). The per-block search is concrete only for the literal family (C01's pipeline model); "
+                   "for regexps and chained patterns it is the abstract scan_one, tied to the implementation differentially (directed straddle and "
+                   "chain scenarios). Seven defects found by this check were "
                    "repaired (whole-file notions defined in block mode, panics with no block / overlapping blocks / a shorter block at the same "
                    "base); per-thread caches of format modules that are not scan-scoped remain a known finding of C04."),
     "technique": "Coq proof over a rebase/merge model with an abstract per-block search + differential comparison against per-block scans (vm_compute) + source-generated state model",
